@@ -207,3 +207,99 @@ nnxmeta_gps = function(
             'Variable.to_state': Handler('Variable.to_state', lambda ex, a, kw: ex.call_value(var_to_state, [_record_var(ex, a[0])], {}), 'Variable.to_state(); the receiver is recorded as ghost(var)'),
             'spmd.get_partition_spec': nnx_gps},
   props=('C18',))
+
+# ---- nnx_attrs_to_linen_vars: every attribute leaf lands under (collection of its type, *its own path), nothing else -----
+from pyvc.values import StarOf as _StarOf, PyTuple as _PyTuple
+AttrsTree = opaque('NNXAttrsTree', is_str=False)
+KPath = opaque('AttrKeyPath', is_str=False)
+KPath.star_opaque = True
+LPath = opaque('LinenKeyPath', is_str=False)
+ColN = opaque('CollectionName', universe=['params', 'batch_stats', 'nnx'])
+TypeO = opaque('VariableClass', is_str=False)
+ALeaf = opaque('AttrLeaf', is_str=False)
+LVal = opaque('LinenLeafValue', is_str=False)
+VSt = opaque('VariableStateObj', is_str=False)
+path_cons = UFn('path_cons', [ColN, KPath], LPath, '(col_name, *kp)')
+flat_attrs = UFn('flatten_mapping', [AttrsTree], MapOf(KPath, ALeaf), 'traversals.flatten_mapping(nnx_attrs) (C16)')
+unflat = UFn('unflatten_mapping', [MapOf(LPath, LVal)], LVal, 'traversals.unflatten_mapping(flat) (C16)')
+is_var_l = UFn('leaf_is_variable', [ALeaf], BOOL, 'isinstance(v, Variable)')
+is_vs_l = UFn('leaf_is_variable_state', [ALeaf], BOOL, 'isinstance(v, VariableState)')
+is_nodedef = UFn('leaf_is_NodeDef', [ALeaf], BOOL, 'isinstance(v, graph.NodeDef)')
+is_noderef = UFn('leaf_is_NodeRef', [ALeaf], BOOL, 'isinstance(v, graph.NodeRef)')
+leaf_type = UFn('leaf_type', [ALeaf], TypeO, 'type(v) of a Variable / v.type of a VariableState')
+leaf_state = UFn('leaf_state', [ALeaf], VSt, 'v.to_state() of a Variable / v itself for a VariableState')
+name_of_type = UFn('variable_name_from_type', [TypeO], ColN, 'variablelib.variable_name_from_type (contract: specs/bridge.py)')
+linen_of = UFn('to_linen_var', [VSt], LVal, 'to_linen_var(state) (contract above)')
+leaf_as_val = UFn('graphdef_as_value', [ALeaf], LVal, 'a NodeDef / NodeRef stored as it is')
+
+
+def _aleaf_isinstance(ex, v, names):
+  if names <= {'variablelib.Variable', 'Variable'}:
+    return ex.call_value(is_var_l, [v], {}).t
+  if names <= {'variablelib.VariableState', 'VariableState'}:
+    return ex.call_value(is_vs_l, [v], {}).t
+  if names <= {'graph.NodeDef', 'graph.NodeRef', 'NodeDef', 'NodeRef'}:
+    hits = []
+    if names & {'graph.NodeDef', 'NodeDef'}:
+      hits.append(ex.call_value(is_nodedef, [v], {}).t)
+    if names & {'graph.NodeRef', 'NodeRef'}:
+      hits.append(ex.call_value(is_noderef, [v], {}).t)
+    return z3.Or(*hits)
+  raise OutsideSubset('isinstance ' + repr(names))
+
+
+ALeaf.isinstance_hook = _aleaf_isinstance
+ALeaf.type_hook = lambda ex, v: ex.call_value(leaf_type, [v], {})
+ALeaf.attrs['type'] = (TypeO, None)
+ALeaf.methods = {'to_state': lambda ex, v, a, kw: ex.call_value(leaf_state, [v], {})}
+LVal.coerce_from = {ALeaf.name: lambda ex, v: ex.call_value(leaf_as_val, [v], {})}
+VSt.coerce_from = {ALeaf.name: lambda ex, v: ex.call_value(leaf_state, [v], {})}
+
+
+def _lpath_from_tuple(ex, t):
+  items = list(t)
+  if len(items) == 2 and isinstance(items[1], _StarOf):
+    return ex.call_value(path_cons, [ex.coerce(items[0], ColN), items[1].v], {})
+  raise OutsideSubset('linen key path must be written (col_name, *kp)')
+
+
+LPath.from_tuple = _lpath_from_tuple
+IS_DEF = '(leaf_is_NodeDef(flatten_mapping(nnx_attrs)[kp]) or leaf_is_NodeRef(flatten_mapping(nnx_attrs)[kp]))'
+LEAF_ = 'flatten_mapping(nnx_attrs)[kp]'
+COL = (f"(variable_name_from_type(leaf_type({LEAF_})) if leaf_is_variable({LEAF_}) else "
+       f"(variable_name_from_type({LEAF_}.type) if leaf_is_variable_state({LEAF_}) else 'nnx'))")
+VALUE = (f"(to_linen_var(leaf_state({LEAF_})) if (leaf_is_variable({LEAF_}) or leaf_is_variable_state({LEAF_})) else graphdef_as_value({LEAF_}))")
+KNOWN = f"(leaf_is_variable({LEAF_}) or leaf_is_variable_state({LEAF_}) or {IS_DEF})"
+attrs_to_linen = function(
+  F + '::nnx_attrs_to_linen_vars', params=[('nnx_attrs', AttrsTree)], returns=LVal,
+  raises={'ValueError': f"exists(AttrKeyPath, lambda kp: kp in flatten_mapping(nnx_attrs) and not {KNOWN})"},
+  ensures=[
+    # the result is the unflattening of a map that holds, for every attribute leaf at path kp, its linen form under
+    # (collection named after the leaf's Variable type - 'nnx' for graph definitions -, *kp) ...
+    f"forall(AttrKeyPath, lambda kp: implies(kp in flatten_mapping(nnx_attrs), path_cons({COL}, kp) in ghost('structured') and ghost('structured')[path_cons({COL}, kp)] == {VALUE}))",
+    # ... and nothing else
+    f"forall(LinenKeyPath, lambda p: implies(p in ghost('structured'), exists(AttrKeyPath, lambda kp: kp in flatten_mapping(nnx_attrs) and p == path_cons({COL}, kp))))",
+    "result == unflatten_mapping(ghost('structured'))",
+  ],
+  invariants={0: [
+    "forall(Int, lambda i: implies(0 <= i and i < _k, _at(i)[0] in flatten_mapping(nnx_attrs) and %s and path_cons(%s, _at(i)[0]) in linen_structured and linen_structured[path_cons(%s, _at(i)[0])] == %s))" % tuple(x.replace('kp', '_at(i)[0]') for x in (KNOWN, COL, COL, VALUE)),
+    "forall(LinenKeyPath, lambda p: implies(p in linen_structured, exists(Int, lambda i: 0 <= i and i < _k and p == path_cons(%s, _at(i)[0]))))" % COL.replace('kp', '_at(i)[0]'),
+  ]},
+  bindings={
+    'traversals.flatten_mapping': flat_attrs,
+    'traversals.unflatten_mapping': Handler('traversals.unflatten_mapping', lambda ex, a, kw: _unflat(ex, a), 'uninterpreted (C16); its argument is recorded as ghost(structured)'),
+    'variablelib.variable_name_from_type': name_of_type, 'to_linen_var': linen_of,
+    'variablelib.Variable': TypeTag('variablelib.Variable'), 'variablelib.VariableState': TypeTag('variablelib.VariableState'),
+    'graph.NodeDef': TypeTag('graph.NodeDef'), 'graph.NodeRef': TypeTag('graph.NodeRef'),
+  },
+  props=('C18',))
+attrs_to_linen.locals = {'linen_structured': MapOf(LPath, LVal)}
+attrs_to_linen.dict_hint = MapOf(LPath, LVal)
+# (col_name, *kp) is injective in both components
+attrs_to_linen.assume_axioms = ["forall(CollectionName, CollectionName, AttrKeyPath, AttrKeyPath, lambda c1, c2, k1, k2: implies(path_cons(c1, k1) == path_cons(c2, k2), c1 == c2 and k1 == k2))"]
+
+
+def _unflat(ex, a):
+  m = ex.coerce(a[0], MapOf(LPath, LVal))
+  ex.ghost['structured'] = m
+  return ex.call_value(unflat, [m], {})
